@@ -112,6 +112,33 @@ class Pipe:
         return exe
 
 
+def monitor_tables(res, pipe, summary, classes=('ObjectQueue', 'UncompressedFile')):
+    """tie T for the monitors: the notify/wait tables regenerated from the AST are what the models use (theorems of
+    Blf.MonitorTie), and the wait predicates / lock kinds have the recorded shape (spec/monitors_golden.json)"""
+    gold = json.load(open(os.path.join(VERIF, 'spec', 'monitors_golden.json')))
+    tabs = summary.get('monitors')
+    res.oblige('T:monitor-tables-extracted', bool(tabs), summary.get('untranslated', {}).get('monitors', 'missing'))
+    if not tabs:
+        return
+    for cls in classes:
+        g, t = gold.get(cls, {}), tabs.get(cls, {})
+        for m in sorted(set(g) | set(t)):
+            a, b = g.get(m), t.get(m)
+            ok = a is not None and b is not None and a['waits'] == b['waits'] and a['lock'] == b['lock'] and a['notifies'] == b['notifies']
+            why = ''
+            if not ok:
+                if a is None or b is None:
+                    why = 'method %s' % ('added' if a is None else 'removed')
+                else:
+                    why = '; '.join(x for x in [
+                        'wait predicate changed (condition variable / shape hash %s -> %s)' % (a['waits'], b['waits']) if a['waits'] != b['waits'] else '',
+                        'notifications changed %s -> %s' % (a['notifies'], b['notifies']) if a['notifies'] != b['notifies'] else '',
+                        'lock kind %s -> %s' % (a['lock'], b['lock']) if a['lock'] != b['lock'] else ''] if x)
+            res.oblige('T:monitor:%s::%s' % (cls, m), ok, why)
+    ths = ['Blf.MonitorTie.queue_notifies', 'Blf.MonitorTie.queue_waits', 'Blf.MonitorTie.ufile_notifies', 'Blf.MonitorTie.ufile_waits']
+    pipe.lean(['Blf.MonitorTie'], {'Blf.MonitorTie': ths})
+
+
 # ================================================================================================ codec correspondence
 def load_baseline():
     p = os.path.join(VERIF, 'spec', 'coverage_baseline.json')
@@ -1040,6 +1067,12 @@ def check_C15(res):
     pipe.regenerate()
     res.checker_cmd = 'cd lean && lake build Blf.Props.C15 && lake env lean <#print axioms>'
     pipe.lean(['Blf.Props.C15', 'blfdriver'], {'Blf.Props.C15': C15_THEOREMS})
+    tr = pipe.regenerate()
+    if tr['ok']:
+        monitor_tables(res, pipe, tr['summary'], classes=('UncompressedFile',))
+        sexe = build_sched_harness(pipe, res)
+        if sexe:
+            monitor_sessions(res, sexe, random.Random(lib.seed() * 31 + 5), 'u')
     nseq = 1500 if res.tier == 'quick' else 30000
     runs = monitor_corr(pipe, res, 'u', nseq, 60)
     res.corr['programs'] = 1
@@ -1063,6 +1096,12 @@ def check_C16(res):
     pipe.regenerate()
     res.checker_cmd = 'cd lean && lake build Blf.Props.C16 && lake env lean <#print axioms>'
     pipe.lean(['Blf.Props.C16', 'blfdriver'], {'Blf.Props.C16': C16_THEOREMS})
+    tr = pipe.regenerate()
+    if tr['ok']:
+        monitor_tables(res, pipe, tr['summary'], classes=('ObjectQueue',))
+        sexe = build_sched_harness(pipe, res)
+        if sexe:
+            monitor_sessions(res, sexe, random.Random(lib.seed() * 31 + 5), 'q')
     nseq = 2000 if res.tier == 'quick' else 40000
     runs = monitor_corr(pipe, res, 'q', nseq, 40)
     res.corr['programs'] = 1
@@ -1817,6 +1856,83 @@ def build_sched_harness(pipe, res, tsan=False):
     return exe
 
 
+def monitor_sessions(res, sexe, rng, kinds):
+    """the two monitors alone under the controlled scheduler: a producer thread and a consumer thread on the real
+    ObjectQueue<T> (`qsess`) / UncompressedFile (`usess`) with tiny capacities; baseline schedule, every single deviation
+    from it (and every second deviation on the smallest ones), seeded random and PCT schedules.  The expected result is the
+    one the theorems of QueueConc / Pipe give: all objects in order then null; the bytes of the stream in order."""
+    import filechecks as fc
+    env = fc.fenv()
+    sess = []
+    if 'q' in kinds:
+        for cap in (1, 2, 3):
+            for n in range(0, 5):
+                sess.append(('qsess cap=%d n=%d' % (cap, n), 'got=%s null=1' % (','.join(str(i + 1) for i in range(n)) or '-'), cap <= 2 and n <= 3))
+        sess.append(('qsess cap=2 n=7', 'got=1,2,3,4,5,6,7 null=1', False))
+        sess.append(('qsess cap=10 n=14', 'got=%s null=1' % ','.join(str(i + 1) for i in range(14)), False))
+    if 'u' in kinds:
+        for buf, conts, reads in [(1, [2, 2], [1, 2, 1, 1]), (4, [8, 8, 8], [20, 4, 1]), (4, [3, 5], [8, 1]), (8, [4, 4, 4, 4], [3, 13, 1]), (2, [1, 1, 1], [1, 1, 1, 1]),
+                                  (4, [6], [2, 2, 2, 2]), (1, [5, 5], [10]), (16, [4, 4], [8, 8]), (3, [7, 2, 9], [4, 14, 5])]:
+            tot = sum(conts); pos = 0; exp = []
+            for r in reads:
+                k = min(r, tot - pos)
+                exp.append(bytes((pos + i) % 251 for i in range(k)).hex() + ('!' if r > tot - pos else ''))
+                pos += k
+                if r > k:
+                    break
+            sess.append(('usess buf=%d conts=%s reads=%s' % (buf, ','.join(map(str, conts)), ','.join(map(str, reads))), 'reads=%s' % (','.join(exp) or '-'), sum(conts) <= 8))
+    base = [b + ' policy=nonpreempt' for b, _, _ in sess]
+    bans, rc, err = lib.psession(sexe, base, env=env, timeout=1800)
+    if len(bans) != len(base):
+        res.oblige('D:monitor-sched-session', False, '%d answers for %d requests %s' % (len(bans), len(base), err[-300:]))
+        return
+    reqs, owner = [], []
+    for i, ((b, exp, small), a) in enumerate(zip(sess, bans)):
+        reqs.append(base[i]); owner.append(i)
+        for sd in range(6 if res.tier == 'quick' else 60):
+            reqs.append(b + ' policy=random seed=%d' % (lib.seed() * 100 + sd)); owner.append(i)
+            reqs.append(b + ' policy=pct seed=%d' % (lib.seed() * 100 + sd)); owner.append(i)
+        if 'outcome=done' in a:
+            dev = sched_requests('', parse_trace(a))
+            if len(dev) > (150 if res.tier == 'quick' else 3000):
+                dev = [dev[j] for j in sorted(rng.sample(range(len(dev)), 150 if res.tier == 'quick' else 3000))]
+            for (extra, _, _) in dev:
+                reqs.append(b + ' policy=nonpreempt' + extra); owner.append(i)
+    ans, rc, err = lib.psession(sexe, reqs, env=env, timeout=3600)
+    if len(ans) != len(reqs):
+        res.oblige('D:monitor-sched-session', False, '%d answers for %d requests %s' % (len(ans), len(reqs), err[-300:]))
+        return
+    # second deviation on the small ones
+    reqs2, owner2 = [], []
+    for rq, a, i in zip(reqs, ans, owner):
+        if sess[i][2] and 'choices=' in rq and 'outcome=done' in a and (res.tier == 'thorough' or rng.random() < 0.15):
+            tr_ = parse_trace(a)
+            nfix = len(rq.split('choices=')[1].split()[0].split(','))
+            for (extra, j, _) in sched_requests('', tr_):
+                if j >= nfix:
+                    reqs2.append(sess[i][0] + ' policy=nonpreempt' + extra); owner2.append(i)
+    if len(reqs2) > (1500 if res.tier == 'quick' else 60000):
+        idx = sorted(rng.sample(range(len(reqs2)), 1500 if res.tier == 'quick' else 60000))
+        reqs2 = [reqs2[k] for k in idx]; owner2 = [owner2[k] for k in idx]
+    ans2, rc, err = lib.psession(sexe, reqs2, env=env, timeout=3600) if reqs2 else ([], 0, '')
+    bad = {}
+    n = 0
+    for rq, a, i in list(zip(reqs, ans, owner)) + list(zip(reqs2, ans2, owner2)):
+        n += 1
+        res.corr['requests'] += 1
+        exp = sess[i][1]
+        ok = 'outcome=done' in a and (' ' + exp + ' ') in (a + ' ')
+        if not ok:
+            oc = a.split('outcome=')[1].split()[0] if 'outcome=' in a else 'none'
+            sig = ('deadlock' if oc in ('deadlock', 'watchdog', 'steplimit') else 'wrong-result' if oc == 'done' else oc) + '-' + sess[i][0].split()[0]
+            if sig not in bad or len(rq) < len(bad[sig][0]):
+                bad[sig] = (rq, a[:300], exp)
+    res.corr['monitor_schedules_run'] = res.corr.get('monitor_schedules_run', 0) + n
+    for sig, (rq, a, exp) in bad.items():
+        res.violation('schedule', '%s: %s under schedule %s (expected %s)' % (sig, a[:120], rq[-80:], exp[:80]),
+                      {'class': 'ObjectQueue' if 'qsess' in sig else 'UncompressedFile', 'failure': sig, 'request': rq, 'answer': a, 'expected': exp})
+
+
 def parse_trace(ans):
     t = ans.split('trace=')[1].split()[0] if 'trace=' in ans else ''
     return [tuple(int(x) for x in d.split(':')) for d in t.split(';') if d]
@@ -1918,7 +2034,10 @@ def check_sched(res, prop):
     sexe = build_sched_harness(pipe, res)
     if not sexe:
         finish_codec(res)
+    monitor_tables(res, pipe, summary)
     rng = random.Random(lib.seed() * 3617 + 6)
+    if prop in ('C06', 'C07'):
+        monitor_sessions(res, sexe, random.Random(lib.seed() * 31 + 5), 'qu')
     R = sched_sessions(res, pipe, fexe, cexe, sexe, summary, exact, rng)
     if R is None:
         finish_codec(res)
